@@ -50,9 +50,9 @@ package http
 //@   ghost lagv time.Duration = 0
 //@   ghost answered int = 0
 //@   on call Store.Lag assert !asked && arg0 == s.store ; then asked = true, lagv = ret0
-//@   on call http.Error assert asked && answered == 0 && arg2 == 503 && s.MaxLag > 0 && lagv > s.MaxLag ; then answered = 503
-//@   on call http.ResponseWriter.WriteHeader assert asked && answered == 0 && arg0 == 200 && !(s.MaxLag > 0 && lagv > s.MaxLag) ; then answered = 200
-//@   on call http.Transport.RoundTrip assert false
+//@   on call nethttp.Error assert asked && answered == 0 && arg2 == 503 && s.MaxLag > 0 && lagv > s.MaxLag ; then answered = 503
+//@   on call nethttp.ResponseWriter.WriteHeader assert asked && answered == 0 && arg0 == 200 && !(s.MaxLag > 0 && lagv > s.MaxLag) ; then answered = 200
+//@   on call nethttp.Transport.RoundTrip assert false
 //@   on call ProxyServer.proxyToTarget assert false
 //@   ensures   asked && (answered == 503 || answered == 200)
 //@   ensures   answered == 503 <==> (s.MaxLag > 0 && lagv > s.MaxLag)
@@ -88,12 +88,12 @@ package http
 //@   ghost dbr *litefs.DB = nil
 //@   ghost ptx ltx.TXID = 0
 //@   ghost cookies int = 0
-//@   on call http.Transport.RoundTrip assert stage == 0 && arg0 == s.HTTPTransport && arg1 == r && r.URL.Scheme == "http" && r.URL.Host == s.Target ; then stage = (ret1 == nil ? 1 : -1)
-//@   on call http.Error assert stage == -1 && arg2 == 502
+//@   on call nethttp.Transport.RoundTrip assert stage == 0 && arg0 == s.HTTPTransport && arg1 == r && r.URL.Scheme == "http" && r.URL.Host == s.Target ; then stage = (ret1 == nil ? 1 : -1)
+//@   on call nethttp.Error assert stage == -1 && arg2 == 502
 //@   on call Store.DB assert stage == 1 && arg0 == s.store && arg1 == s.DBName ; then stage = 2, dbr = ret0
 //@   on call DB.Pos assert stage == 2 && arg0 == dbr ; then stage = 3, ptx = ret0.TXID
-//@   on call http.SetCookie assert stage == 3 && cookies == 0 && !passthrough && !isReadMethod(r) && arg1.Name == "__txid" && arg1.Value == txidStr(ptx) && arg1.Path == "/" && arg1.HttpOnly ; then cookies = 1
-//@   on call http.ResponseWriter.WriteHeader assert stage >= 1 && arg0 == resp.StatusCode
+//@   on call nethttp.SetCookie assert stage == 3 && cookies == 0 && !passthrough && !isReadMethod(r) && arg1.Name == "__txid" && arg1.Value == txidStr(ptx) && arg1.Path == "/" && arg1.HttpOnly ; then cookies = 1
+//@   on call nethttp.ResponseWriter.WriteHeader assert stage >= 1 && arg0 == resp.StatusCode
 //@   loop 1 invariant resp != nil
 //@   loop 2 invariant -1 <= rangeindex && rangeindex < len(values)
 //@   ensures   stage != 0
@@ -113,13 +113,13 @@ package http
 //@   ghost rt int = 0
 //@   on call Store.PrimaryInfoWithContext assert !asked && outcome == 0 && arg0 == s.store ; then asked = true, prim = ret0, pinfo = ret1
 //@   on call ProxyServer.proxyToTarget assert asked && prim && outcome == 0 && rt == 0 && arg0 == s && arg1 == w && arg2 == r && !arg3 ; then outcome = 1
-//@   on call http.Transport.RoundTrip assert asked && prim && outcome == 0 && rt == 0 ; then rt = rt + 1
-//@   on call http.Error op "Proxy error: no primary available" assert asked && !prim && pinfo == nil && outcome == 0 && arg2 == 503 ; then outcome = 2
-//@   on call http.Header.Set op "fly-replay" assert asked && !prim && pinfo != nil && outcome == 0 && arg1 == "fly-replay" && arg2 == "instance=" + pinfo.Hostname ; then outcome = 3
+//@   on call nethttp.Transport.RoundTrip assert asked && prim && outcome == 0 && rt == 0 ; then rt = rt + 1
+//@   on call nethttp.Error op "Proxy error: no primary available" assert asked && !prim && pinfo == nil && outcome == 0 && arg2 == 503 ; then outcome = 2
+//@   on call nethttp.Header.Set op "fly-replay" assert asked && !prim && pinfo != nil && outcome == 0 && arg1 == "fly-replay" && arg2 == "instance=" + pinfo.Hostname ; then outcome = 3
 //@   ghost rtOK bool = false
 //@   ghost cookie bool = false
-//@   on call http.Transport.RoundTrip ; then rtOK = (ret1 == nil)
-//@   on call http.SetCookie assert rtOK ; then cookie = true
+//@   on call nethttp.Transport.RoundTrip ; then rtOK = (ret1 == nil)
+//@   on call nethttp.SetCookie assert rtOK ; then cookie = true
 //@   ensures   asked && outcome != 0
 //@   ensures   prim <==> outcome == 1
 //@   ensures   prim <==> rt == 1
@@ -148,14 +148,14 @@ package http
 //@   ghost rt int = 0
 //@   ghost timedout bool = false
 //@   on call time.NewTicker assert arg0 > 0
-//@   on call http.Request.Cookie assert !looked && arg0 == r && arg1 == "__txid" ; then looked = true, ck = ret0
+//@   on call nethttp.Request.Cookie assert !looked && arg0 == r && arg1 == "__txid" ; then looked = true, ck = ret0
 //@   on call ltx.ParseTXID assert looked && ck != nil && arg0 == ck.Value && want == 0 ; then want = ret0
 //@   on call Store.DB assert looked && want != 0 && !dbLooked && arg0 == s.store && arg1 == s.DBName ; then dbLooked = true, dbr = ret0
 //@   on call DB.Pos assert dbLooked && dbr != nil && arg0 == dbr && fwd == 0 && !timedout ; then read = true, last = ret0.TXID
 //@   on call ProxyServer.proxyToTarget assert fwd == 0 && rt == 0 && !timedout && looked && (want == 0 || (dbLooked && dbr == nil) || (read && last >= want)) && arg0 == s && arg1 == w && arg2 == r && !arg3 ; then fwd = 1
-//@   on call http.Transport.RoundTrip assert fwd == 0 && rt == 0 && !timedout && looked && (want == 0 || (dbLooked && dbr == nil) || (read && last >= want)) ; then rt = 1
-//@   on call http.Error op "Proxy timeout" assert fwd == 0 && !timedout && arg2 == 504 && want != 0 && dbr != nil && read && last < want ; then timedout = true
-//@   on call http.SetCookie assert false
+//@   on call nethttp.Transport.RoundTrip assert fwd == 0 && rt == 0 && !timedout && looked && (want == 0 || (dbLooked && dbr == nil) || (read && last >= want)) ; then rt = 1
+//@   on call nethttp.Error op "Proxy timeout" assert fwd == 0 && !timedout && arg2 == 504 && want != 0 && dbr != nil && read && last < want ; then timedout = true
+//@   on call nethttp.SetCookie assert false
 //@   loop 1 invariant looked && want != 0 && want == txid && dbLooked && dbr != nil && dbr == db && fwd == 0 && rt == 0 && !timedout
 //@   mergeexits
 //@   ensures   (fwd == 1) != timedout
@@ -181,8 +181,8 @@ package http
 //@   on call ProxyServer.isPassthrough assert !ptKnown && routed == 0 && arg0 == s && arg1 == r ; then ptKnown = true, pt = ret0
 //@   on call ProxyServer.isAlwaysForwarded assert ptKnown && !pt && !afKnown && routed == 0 && isReadMethod(r) && !isHealth(r) && arg0 == s && arg1 == r ; then afKnown = true, af = ret0
 //@   on call ProxyServer.proxyToTarget assert routed == 0 && ptKnown && pt && arg0 == s && arg1 == w && arg2 == r && arg3 ; then routed = 1
-//@   on call http.Transport.RoundTrip assert routed == 0 && rt == 0 && ptKnown && pt ; then rt = 1
-//@   on call http.SetCookie assert false
+//@   on call nethttp.Transport.RoundTrip assert routed == 0 && rt == 0 && ptKnown && pt ; then rt = 1
+//@   on call nethttp.SetCookie assert false
 //@   on call ProxyServer.serveGetHealth assert routed == 0 && ptKnown && !pt && isHealth(r) && arg0 == s && arg1 == w && arg2 == r ; then routed = 2
 //@   on call ProxyServer.serveRead assert routed == 0 && ptKnown && !pt && !isHealth(r) && isReadMethod(r) && afKnown && !af && arg0 == s && arg1 == w && arg2 == r ; then routed = 3
 //@   on call ProxyServer.serveNonRead assert routed == 0 && ptKnown && !pt && !isHealth(r) && (!isReadMethod(r) || (afKnown && af)) && arg0 == s && arg1 == w && arg2 == r ; then routed = 4
